@@ -834,47 +834,66 @@ pub fn deny_precise(modifiers: &ast::TypeModifierSet, position: TypePosition) ->
 }
 
 /// Replace instances of a template type parameter in a type with a concrete type
+///
+/// Returns None if the arguments do not form a valid type
 pub fn apply_template_type_substitution(
     source_type: ir::TypeId,
     remap: &[Located<ir::TypeOrConstant>],
     context: &mut Context,
-) -> ir::TypeId {
-    match context.module.type_registry.get_type_layer(source_type) {
-        ir::TypeLayer::Modifier(modifier, tyl) => {
-            let inner_ty = apply_template_type_substitution(tyl, remap, context);
-            context
-                .module
-                .type_registry
-                .combine_modifier(inner_ty, modifier)
-        }
-        ir::TypeLayer::TemplateParam(ref p) => {
-            let index = context
-                .module
-                .type_registry
-                .get_template_type(*p)
-                .positional_index;
-            match &remap[index as usize].node {
-                ir::TypeOrConstant::Type(ty) => *ty,
-                ir::TypeOrConstant::Constant(_) => todo!("Non-type template arguments"),
-            }
-        }
-        ir::TypeLayer::Vector(ty, x) => {
-            let inner_ty = apply_template_type_substitution(ty, remap, context);
-            let layer = ir::TypeLayer::Vector(inner_ty, x);
-            context.module.type_registry.register_type(layer)
-        }
-        ir::TypeLayer::Matrix(ty, x, y) => {
-            let inner_ty = apply_template_type_substitution(ty, remap, context);
-            let layer = ir::TypeLayer::Matrix(inner_ty, x, y);
-            context.module.type_registry.register_type(layer)
-        }
-        ir::TypeLayer::Array(tyl, len) => {
-            let inner_ty = apply_template_type_substitution(tyl, remap, context);
-            let layer = ir::TypeLayer::Array(inner_ty, len);
-            context.module.type_registry.register_type(layer)
-        }
-        _ => source_type,
+) -> Option<ir::TypeId> {
+    /// Only scalar types may be the element of a vector or matrix
+    fn is_valid_element(ty: ir::TypeId, context: &Context) -> bool {
+        matches!(
+            context.module.type_registry.get_type_layer(ty),
+            ir::TypeLayer::Scalar(_) | ir::TypeLayer::TemplateParam(_)
+        )
     }
+
+    Some(
+        match context.module.type_registry.get_type_layer(source_type) {
+            ir::TypeLayer::Modifier(modifier, tyl) => {
+                let inner_ty = apply_template_type_substitution(tyl, remap, context)?;
+                context
+                    .module
+                    .type_registry
+                    .combine_modifier(inner_ty, modifier)
+            }
+            ir::TypeLayer::TemplateParam(ref p) => {
+                let index = context
+                    .module
+                    .type_registry
+                    .get_template_type(*p)
+                    .positional_index;
+                match &remap[index as usize].node {
+                    ir::TypeOrConstant::Type(ty) => *ty,
+                    // A value was given where the template expects a type
+                    ir::TypeOrConstant::Constant(_) => return None,
+                }
+            }
+            ir::TypeLayer::Vector(ty, x) => {
+                let inner_ty = apply_template_type_substitution(ty, remap, context)?;
+                if !is_valid_element(inner_ty, context) {
+                    return None;
+                }
+                let layer = ir::TypeLayer::Vector(inner_ty, x);
+                context.module.type_registry.register_type(layer)
+            }
+            ir::TypeLayer::Matrix(ty, x, y) => {
+                let inner_ty = apply_template_type_substitution(ty, remap, context)?;
+                if !is_valid_element(inner_ty, context) {
+                    return None;
+                }
+                let layer = ir::TypeLayer::Matrix(inner_ty, x, y);
+                context.module.type_registry.register_type(layer)
+            }
+            ir::TypeLayer::Array(tyl, len) => {
+                let inner_ty = apply_template_type_substitution(tyl, remap, context)?;
+                let layer = ir::TypeLayer::Array(inner_ty, len);
+                context.module.type_registry.register_type(layer)
+            }
+            _ => source_type,
+        },
+    )
 }
 
 /// Attempt to get an ir expression from an ast expression then evaluate it as a constant expression
